@@ -22,6 +22,7 @@ instance : FloatLike Float where
   sqrt := Float.sqrt
   log := Float.log
   rpow := Float.pow
+  powInt x n := Float.pow x (Float.ofInt n)
   isZero x := x == 0.0
   lt x y := x < y
   beq x y := x == y
